@@ -387,6 +387,23 @@ def foreign_expected(rng):
     lines3 = ["# vtk DataFile Version 1.0", "x", "ASCII", "DATASET POLYDATA", "POINTS 6 float"] + [" ".join(str(x) for x in r) for r in sv] + \
              ["TRIANGLE_STRIPS 1 7", "6 0 1 2 3 4 5"]
     out.append(("vtk3", lines3, "vtk-strips", (sv, st)))
+    # several strips of different (odd and even) lengths: the winding alternates within each strip, starting afresh in every strip
+    for rep in range(3):
+        nvs = 12
+        pv = np.column_stack([np.arange(nvs) % 4, np.arange(nvs) // 4, 0.1 * rng.normal(size=nvs)]).astype(float) + 0.05 * rng.normal(size=(nvs, 3))
+        strips = []
+        for _ in range(int(rng.integers(2, 5))):
+            ln = int(rng.integers(3, 8))
+            strips.append([int(x) for x in rng.permutation(nvs)[:ln]])
+        tri = []
+        for sx in strips:
+            for i in range(len(sx) - 2):
+                tri.append([sx[i], sx[i + 1], sx[i + 2]] if i % 2 == 0 else [sx[i + 1], sx[i], sx[i + 2]])
+        if len(tri) < 4:
+            continue
+        lns = ["# vtk DataFile Version 1.0", "strips", "ASCII", "DATASET POLYDATA", "POINTS %d float" % nvs] + [" ".join(repr(float(x)) for x in r) for r in pv] + \
+              ["TRIANGLE_STRIPS %d %d" % (len(strips), sum(len(sx) + 1 for sx in strips))] + ["%d %s" % (len(sx), " ".join(str(x) for x in sx)) for sx in strips]
+        out.append(("vtk3", lns, "vtk-multi-strips-%d" % rep, (pv, np.array(tri))))
     # OFF
     lo = ["OFF", "%d %d 0" % (len(v), len(t))] + pts + ["3 %d %d %d" % tuple(r) for r in t]
     out.append(("off", lo, "off", (v, t)))
